@@ -50,13 +50,18 @@ var text = map[string]string{
 	"bad_class": "class A\n  def f: Int then \"oops\"\nend",
 	"bad_mix":   "class A\n  def f: Int then 9\nend\ndef m: Int then 9\nconst K = 9\nx := 9\no(1 + \"a\")",
 	"bad_types": "def m: String then \"s\"\nx := \"s\"\no(1 + \"a\")",
+	"us":         "module Foo\n  def bar: Int then 3\nend\nusing Foo::bar",
+	"dv":         "class P\n  val @x: Int\n  init(@x); end\n  def x: Int then @x\nend",
+	"bad_valset": "class P\n  def set(v: Int) then @x = v\nend",
+	"pu":         "o(bar() + 100)",
+	"pp":         "o(P(5).x + 100)",
 	"pm":        "o(m() + 100)",
 	"pa":        "o(A().f + 100)",
 	"pk":        "o(K + 100)",
 	"px":        "o(x + 100)",
 }
 
-var probes = []string{"pm", "pa", "pk", "px"}
+var probes = []string{"pm", "pa", "pk", "px", "pu", "pp"}
 
 var throws = map[string]bool{"boom": true, "incboom": true}
 
@@ -98,7 +103,7 @@ func run(c *core.Ctx) error {
 		return devSession(c, f)
 	}
 	specDir := filepath.Join(core.VerifRoot, "spec", "Repl")
-	alphabet := []string{"dm1", "dm2", "dc1", "k1", "k2", "lx", "inc", "boom", "incboom", "bad_body", "bad_class", "bad_mix", "bad_types"}
+	alphabet := []string{"dm1", "dm2", "dc1", "k1", "k2", "lx", "inc", "boom", "incboom", "bad_body", "bad_class", "bad_mix", "bad_types", "us", "dv", "bad_valset"}
 	maxLen := c.Pick(3, 4)
 	simLen := c.Pick(5, 6)
 	nSim := c.Pick(100, 3000)
@@ -182,7 +187,7 @@ func run(c *core.Ctx) error {
 	var jobs []core.Job
 	// the variant with the probes after every input costs twice as much: a seeded sample of the
 	// exhaustive histories in the quick tier, all of them in the thorough tier
-	if limit := 12000; len(histories) > limit {
+	if limit := c.Pick(2600, 12000); len(histories) > limit {
 		// TLC has checked every history; replaying all 41 000 of the thorough tier takes more than two hours on a
 		// loaded machine, so the real sessions are a seeded sample of them
 		keep := histories[:0:0]
